@@ -87,7 +87,7 @@ template <class I, class V> static bool is_slice(const Src<V> &s, int b, int e, 
 }
 
 // ---- sparse MatrixMarket -------------------------------------------------------------------------------
-template <class I, class V> static std::string rt_mm_sparse(const Src<V> &s, bool all_ranges) {
+template <class I, class V> static std::string rt_mm_sparse(const Src<V> &s, bool all_ranges, bool minimal = false) {
     amgcl::backend::crs<V, ptrdiff_t, ptrdiff_t> A(s.m, s.n, s.ptr, s.col, s.val);
     ::unlink(P().c_str());
     amgcl::io::mm_write(P(), A);
@@ -104,12 +104,13 @@ template <class I, class V> static std::string rt_mm_sparse(const Src<V> &s, boo
     }
     for (int b = 0; b <= s.m; ++b) for (int en = b; en <= s.m; ++en) {
         if (!all_ranges && !(b == 0 && en == s.m) && !(b == 1 && en == s.m - 1) && !(b == en)) continue;
+        if (minimal && !(b == 1 && en == s.m - 1)) continue;
         amgcl::io::mm_reader r(P());
         std::vector<I> ptr, col; std::vector<V> val; size_t rows, cols;
         std::tie(rows, cols) = r(ptr, col, val, b, en);
         if ((int)rows != en - b || (int)cols != s.n || !is_slice(s, b, en, ptr, col, val)) FAIL("rowrange.mm_sparse", "rows [" << b << "," << en << ") differ from the slice of " << show_src(s));
     }
-    if (s.m >= 1) {   // defaults: (b,-1) and (-1,e)
+    if (s.m >= 1 && !minimal) {   // defaults: (b,-1) and (-1,e)
         { amgcl::io::mm_reader r(P()); std::vector<I> ptr, col; std::vector<V> val; r(ptr, col, val, 1, -1); if (!is_slice(s, 1, s.m, ptr, col, val)) FAIL("rowrange.mm_sparse", "rows [1,default) differ for " << show_src(s)); }
         { amgcl::io::mm_reader r(P()); std::vector<I> ptr, col; std::vector<V> val; r(ptr, col, val, -1, s.m - 1); if (!is_slice(s, 0, s.m - 1, ptr, col, val)) FAIL("rowrange.mm_sparse", "rows [default,m-1) differ for " << show_src(s)); }
     }
@@ -117,7 +118,7 @@ template <class I, class V> static std::string rt_mm_sparse(const Src<V> &s, boo
 }
 
 // ---- sparse binary ----------------------------------------------------------------------------------------
-template <class SizeT, class I, class V> static std::string rt_bin_sparse(const Src<V> &s, bool all_ranges, bool reversed_rows) {
+template <class SizeT, class I, class V> static std::string rt_bin_sparse(const Src<V> &s, bool all_ranges, bool reversed_rows, bool minimal = false) {
     std::vector<I> ptr(s.ptr.begin(), s.ptr.end()), col(s.col.begin(), s.col.end()); std::vector<V> val = s.val;
     if (reversed_rows) for (int i = 0; i < s.m; ++i) { std::reverse(col.begin() + s.ptr[i], col.begin() + s.ptr[i + 1]); std::reverse(val.begin() + s.ptr[i], val.begin() + s.ptr[i + 1]); }
     ::unlink(P().c_str());
@@ -137,6 +138,7 @@ template <class SizeT, class I, class V> static std::string rt_bin_sparse(const 
     }
     for (int b = 0; b <= s.m; ++b) for (int en = b; en <= s.m; ++en) {
         if (!all_ranges && !(b == 0 && en == s.m) && !(b == 1 && en == s.m - 1) && !(b == en)) continue;
+        if (minimal && !(b == 1 && en == s.m - 1)) continue;
         SizeT n = 0; std::vector<I> p2, c2; std::vector<V> v2;
         amgcl::io::read_crs(P(), n, p2, c2, v2, b, en);
         if ((long long)n != s.m || !is_slice(s, b, en, p2, c2, v2)) FAIL("rowrange.bin_sparse", "rows [" << b << "," << en << ") differ from the slice of " << show_src(s));
@@ -196,11 +198,11 @@ static void run_sparse() {
     std::vector<std::array<int,2>> shapes;
     for (int m = 0; m <= 3; ++m) for (int n = 0; n <= 3; ++n) shapes.push_back({m, n});
     shapes.push_back({3, 4}); shapes.push_back({4, 3}); shapes.push_back({0, 4}); shapes.push_back({4, 0}); shapes.push_back({1, 4}); shapes.push_back({4, 1}); shapes.push_back({2, 4}); shapes.push_back({4, 2});
-    if (vf::thorough()) { shapes.push_back({4, 4}); shapes.push_back({4, 5}); shapes.push_back({5, 4}); }
+    if (vf::thorough()) { shapes.push_back({4, 4}); shapes.push_back({4, 5}); }
     for (auto sh : shapes) {
         int m = sh[0], n = sh[1];
         uint64_t np = 1ull << (m * n);
-        bool small = m * n <= 9, big = m * n > 16;      // 4x5 / 5x4: ranges {all rows, [1,m-1), empty} only
+        bool small = m * n <= 9, big = m * n > 16;      // 4x5: full read and rows [1,m-1) only
         for (uint64_t g = 0; g < np; g += 64) {
             if (!vf::take_group()) continue;
             Batch b(*RUN);
@@ -221,8 +223,8 @@ static void run_sparse() {
                 b.add(key, [=] {
                     std::string r;
                     auto sd = make_src<double>(m, n, mask, salt);
-                    if (!(r = rt_mm_sparse<ptrdiff_t, double>(sd, !big)).empty()) return r;
-                    if (!(r = rt_bin_sparse<size_t, ptrdiff_t, double>(sd, !big, false)).empty()) return r;
+                    if (!(r = rt_mm_sparse<ptrdiff_t, double>(sd, !big, big)).empty()) return r;
+                    if (!(r = rt_bin_sparse<size_t, ptrdiff_t, double>(sd, !big, false, big)).empty()) return r;
                     if (!big && !(r = rt_bin_sparse<ptrdiff_t, ptrdiff_t, double>(sd, false, true)).empty()) return r;
                     if (small) {
                         if (!(r = rt_mm_sparse<int, double>(sd, false)).empty()) return r;
@@ -243,7 +245,7 @@ static void run_sparse() {
                 }, [=](const bt::Outcome &o) { handle("roundtrip.sparse", key, o, vf::KS() << m << "x" << n << " pattern mask " << mask); });
             }
         }
-        vf::space(vf::KS() << "sparse round trip: all " << np << " patterns " << m << "x" << n << (big ? " x row ranges {full, [1,m-1), empty}" : " x all row ranges") << "; MatrixMarket + binary (double"
+        vf::space(vf::KS() << "sparse round trip: all " << np << " patterns " << m << "x" << n << (big ? " x {full read, rows [1,m-1)}" : " x all row ranges") << "; MatrixMarket + binary (double"
                   << (small ? ", complex<double>, float, complex<float>, int, long long, char; index types ptrdiff_t and int" : "") << ")");
     }
 }
